@@ -57,8 +57,14 @@ pub fn locate(tier: Tier, idx: u64) -> (&'static Corpus, u64) {
 /// bodies of the reapply-loop corpus T4 where running them to a step cap would only cost time.
 pub fn ref_terminates(e: &E) -> bool {
     let host = Host::none();
-    let mut r = Ref::new(&host, 64);
-    !matches!(r.run(e, &V::Int(0)), Err(Stop::Fuel))
+    // top-level loops use the program input as their counter: both inputs the checks run them with must terminate
+    for input in [V::Int(0), V::Int(5)] {
+        let mut r = Ref::new(&host, 64);
+        if matches!(r.run(e, &input), Err(Stop::Fuel)) {
+            return false;
+        }
+    }
+    true
 }
 
 #[derive(Clone, Debug, PartialEq)]
@@ -263,7 +269,7 @@ impl Property for C01 {
             _ => 5,
         };
         // quick tiers use the inputs "5" and "(:a = 1, :b = 2)"; thorough all five
-        let sel: Vec<usize> = if c.name == "T4" { vec![1] } else if n_inputs == 2 { vec![1, 3] } else { (0..5).collect() };
+        let sel: Vec<usize> = if c.name == "T4" { vec![1, 5] } else if n_inputs == 2 { vec![1, 3] } else { (0..5).collect() };
         for ii in sel {
             check_one::<SData>(cx, &e, ii, true);
             check_one::<BData>(cx, &e, ii, true);
@@ -306,7 +312,7 @@ impl Property for C01 {
         let s = spaces(tier);
         Meta {
             rule: format!(
-                "all ASTs of five grammars by size (unranked index -> AST): T1 every core operator with <=1 operator over 12 typed atoms ({} programs, 5 inputs); T2 every ordered pair of operators in both nestings ({} programs); T3 structural grammar (groups, space/comma lists, conditionals with else-chains, && ||, `;` and blank-line sequencing, side-effect blocks, nested expressions with <~ ~> ~~, identifiers, property access, bounded reapply loops) up to {} AST nodes ({} programs); T4 reapply loops `{{ T }} <~ 0` whose body places `^~ $ + 1` / `^~ $ + 2` in every guarded position - conditional arms, else arms, chained arms, right operand of && / ||, groups, after `;` and blank-line sequencing - up to {} nodes ({} programs); T5 calls: nested expressions applied inside nested expressions by <~ ~> ~~ with additions, lists, conditionals and `;` around them, up to {} nodes ({} programs); T6 block endings: every core operator as the last thing evaluated by the right operand of && / ||, by conditional arms / conditions, under ! and ^^, over four literal pools ({} programs); each printed with minimal parentheses, run on SimpleGarnishData and BasicGarnishData and compared with the reference evaluator. Non-trivial = program with at least one operator; distinct by enumeration index (the unranking is injective).",
+                "all ASTs of five grammars by size (unranked index -> AST): T1 every core operator with <=1 operator over 12 typed atoms ({} programs, 5 inputs); T2 every ordered pair of operators in both nestings ({} programs); T3 structural grammar (groups, space/comma lists, conditionals with else-chains, && ||, `;` and blank-line sequencing, side-effect blocks, nested expressions with <~ ~> ~~, identifiers, property access, bounded reapply loops) up to {} AST nodes ({} programs); T4 reapply loops `{{ T }} <~ 0`, `0 ~> {{ T }}` and top-level `T` (input as counter; inputs 5 and 0) whose body places `^~ $ + 1` / `^~ $ + 2` in every guarded position - conditional arms, else arms, chained arms, right operand of && / ||, groups, after `;` and blank-line sequencing - up to {} nodes ({} programs); T5 calls: nested expressions applied inside nested expressions by <~ ~> ~~ with additions, lists, conditionals and `;` around them, up to {} nodes ({} programs); T6 block endings: every core operator as the last thing evaluated by the right operand of && / ||, by conditional arms / conditions, under ! and ^^, over four literal pools ({} programs); each printed with minimal parentheses, run on SimpleGarnishData and BasicGarnishData and compared with the reference evaluator. Non-trivial = program with at least one operator; distinct by enumeration index (the unranking is injective).",
                 s.t1.len(), s.t2.len(), s.t3.max, s.t3.len(), s.t4.max, s.t4.len(), s.t5.max, s.t5.len(), s.t6.len()
             ),
             assumptions: vec![
